@@ -180,3 +180,15 @@ CLAIMED['C45'] = dict(
          "known finding C45-KF1.",
     technique="solver-driven exhaustive enumeration of bounded histories + inductive step with a symbolic import count",
     design_ref="DESIGN.md §3 C45")
+
+CLAIMED['C29'] = dict(
+    level='other',
+    text="Inductive one-step refinement check of BoundedDict: from an arbitrary state within the representation invariant (any "
+         "held subset of a 4/5-key pool, every use counter a symbolic integer) one operation (insert/update/lookup/delete/"
+         "membership/destruction, any key) runs on the real class; z3 proves per path (ordering of the counters) that values, "
+         "counters, size equal the model's post-state, evictions happen only for a new key at the limit and keep the most "
+         "used keys, and the callback fires exactly for dropped keys. Bounded histories from the empty dictionary confirm "
+         "that reachable states satisfy the assumed invariant.",
+    note="Trusted: z3, vf/symx.py. max_size 2..4 (quick) / 2..5 (thorough); max_size < 3 with default min_size is outside.",
+    technique="symbolic execution of one operation from an arbitrary valid state (symbolic use counters) + z3 per-path queries",
+    design_ref="DESIGN.md §3 C29")
